@@ -201,14 +201,39 @@ def check_read_after_clear(ctx, rule, fns, accessor_names=("h",), fields=None):
             if hw and hw[1] is not None:
                 fld, obj = hw[0], ser.expr(hw[1])
                 v = hw[2].strip()
-                s = frozenset(x for x in s if x[1] != fld)
+                s = frozenset(x for x in s if len(x) != 2 or x[1] != fld)
                 if v.get("nullc") or v.kind == "CXXNullPtrLiteralExpr":
                     s = s | {(obj, fld)}
+                    # the same element under another name on this path (x = c ? a : b, x = a)
+                    for x in list(s):
+                        if len(x) == 3 and x[0] == "=" and x[1] == obj:
+                            s = s | {(x[2], fld)}
+                        if len(x) == 3 and x[0] == "=" and x[2] == obj:
+                            s = s | {(x[1], fld)}
                 return [s]
             w = write_of(n)
+            if w is None and n.kind == "DeclStmt":
+                for d in n.get("decls", []):
+                    if "init" in d and (f.node(d["init"]).get("t") or "").rstrip().endswith("*"):
+                        w = (("v:%s#%d" % (d["n"], d["d"]),), f.node(d["init"]))
             if w and w[0] and len(w[0]) == 1:
                 nm = w[0][0].split(":")[1].split("#")[0]
-                s = frozenset(x for x in s if nm not in x[0])
+                s = frozenset(x for x in s if not ((len(x) == 2 and nm in x[0]) or (len(x) == 3 and x[0] == "=" and (nm in x[1] or nm in x[2]))))
+                # path-sensitive alias: which element does the assigned local name on THIS path?
+                if w[1] is not None:
+                    rv = w[1].strip()
+                    tgt = None
+                    if rv.kind == "ConditionalOperator" and len(rv.children) == 3:
+                        cid = rv.children[0].strip().id
+                        for x in s:
+                            if len(x) == 3 and x[0] == "br" and x[1] == cid:
+                                tgt = rv.children[1] if x[2] else rv.children[2]
+                    elif rv.kind == "DeclRefExpr" and rv.get("local"):
+                        tgt = rv
+                    if tgt is not None:
+                        tt = tgt.strip()
+                        if tt.kind == "DeclRefExpr" and tt.get("local"):
+                            s = s | {("=", nm, ser.expr(tt))}
                 return [s]
             if n.is_call() and n.callee and n.callee["n"] not in Ser.PURE and n.kind != "CXXConstructExpr":
                 return [frozenset()]
@@ -224,7 +249,19 @@ def check_read_after_clear(ctx, rule, fns, accessor_names=("h",), fields=None):
                         if key in s:
                             bad.append("h(%s).%s is read at %s right after it was cleared" % (key[0], key[1], n.loc))
             return [s]
-        flow.run(f, [frozenset()], transfer, None, limit=200000)
+
+        def refine(cond, truth, s, f=f):
+            # remember which arm of a conditional expression this path took (for `x = c ? a : b`)
+            c = cond.strip()
+            par = f.parent(cond)
+            hops = 0
+            while par is not None and par.kind in ("ImplicitCastExpr", "ParenExpr") and hops < 4:
+                par = f.parent(par)
+                hops += 1
+            if par is not None and par.kind == "ConditionalOperator":
+                s = frozenset(x for x in s if not (len(x) == 3 and x[0] == "br" and x[1] == c.id)) | {("br", c.id, truth)}
+            return [s]
+        flow.run(f, [frozenset()], transfer, refine, limit=200000)
         if n_reads[0]:
             ctx.inst(rule, f.sig, not bad, f.loc, "; ".join(sorted(set(bad))[:3]) if bad else
                      "%d link reads, none of a link cleared on the way" % n_reads[0], f)
@@ -273,3 +310,54 @@ def check_stale_derived(ctx, rule, fns):
         flow.run(f, [frozenset()], transfer, None, limit=200000)
         ctx.inst(rule, f.sig, not bad, f.loc, "; ".join(sorted(set(bad))[:3]) if bad else
                  "%d uses of %d cursor-derived locals, all current" % (uses[0], len(derived)), f)
+
+
+def check_conditional_snapshot(ctx, rule, fns, accessor_names=("h",)):
+    """A local that snapshots a hook field  L = h(X).f  and is used after a write to that same h(X).f which happens on
+    SOME of the paths between the snapshot and the use: on those paths the code continues with the old value, on the
+    others with the current one, and nothing at the use distinguishes them.  (A write on EVERY path before the use is
+    the deliberate save-old-value idiom and is fine; so is no write at all.)"""
+    from .rules_tree import Ser
+    for f in fns:
+        ser = Ser(f, sound=True)
+        ser.never = True
+        inits = RA.local_inits(f)
+        snaps = {}
+        for did, init in inits.items():
+            x = init.strip()
+            if x.kind == "MemberExpr" and x.get("mk") == "Field" and x.children and not RA._reassigned(f, did):
+                b = x.children[0].strip()
+                if b.is_call() and b.callee and b.callee["n"] in accessor_names and b.args:
+                    snaps[did] = (ser.expr(b.args[-1]), x.m)
+        if not snaps:
+            continue
+        seen = {}      # (did, use node id) -> set of stale flags observed
+
+        def transfer(n, st, f=f):
+            if n.kind == "DeclStmt":
+                for d in n.get("decls", []):
+                    if d["d"] in snaps:
+                        st = frozenset(x for x in st if x[0] != d["d"])
+                return [st]
+            hw = hook_write(n, accessor_names)
+            if hw and hw[1] is not None:
+                key = (ser.expr(hw[1]), hw[0])
+                add = {(d, n.id) for d, k in snaps.items() if k == key}
+                if add:
+                    st = st | frozenset(add)
+                return [st]
+            if n.kind == "DeclRefExpr" and n.d.get("d") in snaps:
+                par = f.parent(n)
+                if not (par is not None and par.kind == "DeclStmt"):
+                    seen.setdefault((n.d["d"], n.id), set()).add(frozenset(w for (d, w) in st if d == n.d["d"]))
+            return [st]
+        flow.run(f, [frozenset()], transfer, None, limit=200000)
+        bad = []
+        for (did, nid), flags in sorted(seen.items()):
+            # the same writes to the snapshotted field must have happened on every path to this use
+            if len(flags) > 1:
+                obj, fld = snaps[did]
+                bad.append("local snapshot of h(%s).%s is used at %s although that field is rewritten on some (not all) of the paths "
+                           "leading there" % (obj, fld, f.node(nid).loc))
+        ctx.inst(rule, f.sig, not bad, f.loc, "; ".join(sorted(set(bad))[:2]) if bad else
+                 "%d field snapshots, each either never or always overwritten before its uses" % len(snaps), f)
